@@ -175,7 +175,86 @@ func HeldLocks(fn *ssa.Function, entry LockSet) map[ssa.Instruction]LockSet {
 			transfer(b, st, true)
 		}
 	}
+	// Deferred calls run when the function returns, last registered first: a deferred call
+	// D runs with the locks held at the return, minus those released by the deferred
+	// unlocks that were registered AFTER D (they run before it). `defer refresh(); defer
+	// mu.Unlock()` therefore runs refresh without the lock.
+	var exitHeld LockSet
+	for _, b := range fn.Blocks {
+		for _, ins := range b.Instrs {
+			if _, isRet := ins.(*ssa.Return); isRet {
+				if h, ok := held[ins]; ok {
+					if exitHeld == nil {
+						exitHeld = h.clone()
+					} else {
+						exitHeld = meet(exitHeld, h)
+					}
+				}
+			}
+		}
+	}
+	if exitHeld != nil {
+		var defers []*ssa.Defer
+		for _, b := range fn.Blocks {
+			for _, ins := range b.Instrs {
+				if d, ok := ins.(*ssa.Defer); ok {
+					defers = append(defers, d)
+				}
+			}
+		}
+		for _, d := range defers {
+			if _, op := deferredLockOp(d); op != 0 {
+				continue
+			}
+			cur := exitHeld.clone()
+			for _, u := range defers {
+				name, op := deferredLockOp(u)
+				if op >= 0 || u == d {
+					continue
+				}
+				if !ReachableFrom(After(d), u) {
+					continue
+				}
+				alias := LockAlias[name]
+				if op == -1 {
+					delete(cur, "W:"+name)
+					delete(cur, "R:"+name)
+					if alias != "" {
+						delete(cur, "W:"+alias)
+						delete(cur, "R:"+alias)
+					}
+				} else {
+					delete(cur, "R:"+name)
+					if alias != "" {
+						delete(cur, "R:"+alias)
+					}
+				}
+			}
+			held[d] = cur
+		}
+	}
 	return held
+}
+
+// deferredLockOp classifies a deferred call like lockOp classifies a direct one.
+func deferredLockOp(d *ssa.Defer) (string, int) {
+	id, ok := Callee(d.Common())
+	if !ok || id.Pkg != "sync" || (id.Recv != "RWMutex" && id.Recv != "Mutex") {
+		return "", 0
+	}
+	recv, _ := CallArgs(d.Common())
+	fa, ok := Strip(recv).(*ssa.FieldAddr)
+	if !ok {
+		return "", 0
+	}
+	t, f := FieldAddrName(fa)
+	switch id.Name {
+	case "Unlock":
+		return t + "." + f, -1
+	case "RUnlock":
+		return t + "." + f, -2
+	}
+	return "", 0
 }
 
 // EntryLocks computes, for the functions of one package, the locks held at entry on
